@@ -1138,12 +1138,12 @@ class Hdf5Loader:
 
     def load_dtype(self, h5gr, type_info, subpath):
         """Load a :class:`numpy.dtype`."""
-        name = self.get_attr(h5gr, 'name')
-        if name.startswith('void'):
-            descr = self.load(subpath + 'descr')
-            obj = np.dtype(descr)
+        descr = self.load(subpath + 'descr')
+        if len(descr) == 1 and descr[0][0] == '':
+            # simple dtype; the type string (unlike the 'name' attribute) keeps byte order and item size
+            obj = np.dtype(descr[0][1])
         else:
-            obj = np.dtype(name)
+            obj = np.dtype(descr)
         self.memorize_load(h5gr, obj)
         return obj
 
